@@ -53,6 +53,8 @@ class C09(Check):
                     rr = G.pick_snippet(random.Random(f"c09-seq-{si}-{ci}"), cid)
                     files.append({"path": f"pkg/m{ci}.py", "snippets": [rr["idx"]], "layout": {}})
                 files.append({"path": names[mn]["file"], "manifest": names[mn]["idx"]})
+                if si % 2 == 0 and names[mn]["file"] != "requirements.txt":
+                    files.append({"path": "requirements.txt", "manifest": names["req-comments"]["idx"]})  # a second store
                 fixed.append({"kind": "dep-sequence", "world_spec": {"files": files}, "include": seq, "plugins": False, "path_include": None,
                               "extra_findings": {}, "sched": {"seed": si, "policy": "fifo", "line_p": 0.0}, "workers": None, "enum_seed": None})
         if tier != "thorough":
